@@ -338,12 +338,26 @@ type refClient struct {
 	seg     *rand.Rand // when set, every request is delivered in several TCP segments
 	Events  []refMsg   // EVENT messages received so far (in order)
 	broken  string
+	// rekeying: a second pair-verify is under way on this encrypted connection. A frame that does not open under the
+	// current session may be the first one under the session that is being negotiated: it is kept until Upgrade
+	rekeying bool
 }
 
 func (cl *refClient) Close() { cl.conn.Close() }
 
 // Upgrade switches to the encrypted session (after pair-verify M4).
-func (cl *refClient) Upgrade(shared []byte) { cl.sess = newRefControllerSession(shared) }
+func (cl *refClient) Upgrade(shared []byte) {
+	cl.sess = newRefControllerSession(shared)
+	cl.rekeying = false
+	if len(cl.enc) > 0 {
+		pt, used, ok := cl.sess.DecryptFrames(cl.enc)
+		cl.enc = cl.enc[used:]
+		cl.plain = append(cl.plain, pt...)
+		if !ok {
+			cl.broken = "frame failed authentication"
+		}
+	}
+}
 
 func (cl *refClient) send(b []byte) error {
 	if cl.sess != nil {
@@ -390,7 +404,7 @@ func (cl *refClient) fill(d time.Duration) (bool, error) {
 			pt, used, ok := cl.sess.DecryptFrames(cl.enc)
 			cl.enc = cl.enc[used:]
 			cl.plain = append(cl.plain, pt...)
-			if !ok {
+			if !ok && !cl.rekeying {
 				cl.broken = "frame failed authentication"
 				return false, errors.New(cl.broken)
 			}
